@@ -186,8 +186,8 @@ def l2_phase(ctx, exe, rng, nmods):
                 queries.setdefault(cid, [])
                 exp_ops = (bytes(x & y for x, y in zip(b, b2)).hex(), bytes(x | y for x, y in zip(b, b2)).hex(),
                            bytes(x ^ y for x, y in zip(b, b2)).hex(), bytes((~x) & 255 for x in b).hex())
-                qs.append(("id", cid, j, bytes(b).hex(), rep))
-                qs.append(("ops", cid, j, " ".join(exp_ops), rep))
+                qs.append(("id", cid, j, bytes(b).hex(), rep, b))
+                qs.append(("ops", cid, j, " ".join(exp_ops), rep, b, b2))
                 for k, g in enumerate(fs["getters"]):
                     conv = g["conv"]
                     if conv == "none":
@@ -246,6 +246,10 @@ def l2_phase(ctx, exe, rng, nmods):
                 ql.append(f"QGet {q[2]} {q[3]} {coq_list(q[4])}")
             elif q[0] == "set":
                 ql.append(f"QSet {q[2]} {q[3]} ({q[4]})%Z {coq_list(q[5])}")
+            elif q[0] == "id":
+                ql.append(f"QId {coq_list(q[5])}")
+            elif q[0] == "ops":
+                ql.append(f"QOps {coq_list(q[5])} {coq_list(q[6])}")
         terms.append((cid, f"({t}) [" + "; ".join(ql) + "]"))
     pre = gen_common.PREAMBLE.format(mods="Layout FieldSetGen")
     model = vlib.coq_eval_strings(ctx, pre, [(cid, "l2_expected " + t) for cid, t in terms], shard_size=6, tag="c06l2")
@@ -257,13 +261,18 @@ def l2_phase(ctx, exe, rng, nmods):
         ei = 0
         for q in qs:
             n += 1
-            if q[0] in ("id", "ops"):
-                g = got.get((cid, f"{q[2]}.{q[4]}", q[0]))
-                if g != q[3]:
-                    diffs.append((cid, q, g, q[3]))
-                continue
             e = exp[ei] if ei < len(exp) else "<missing>"
             ei += 1
+            if q[0] in ("id", "ops"):
+                # three-way: compiled field set / Coq model (fs_from_bytes .. fs_not) / the property's wording in python
+                g = got.get((cid, f"{q[2]}.{q[4]}", q[0]))
+                try:
+                    want = " ".join(bytes(int(x) for x in part.split(",")).hex() for part in e.split(" "))
+                except ValueError:
+                    want = e
+                if g != want or want != q[3]:
+                    diffs.append((cid, q[:5], g, {"model": want, "property": q[3]}))
+                continue
             if q[0] == "get":
                 g = got.get((cid, f"{q[2]}.{q[6]}", f"g{q[3]}"))
                 conv = q[5]
